@@ -9,7 +9,7 @@ use crate::database::edge::{Edge, EdgeDeletionEntry};
 use crate::database::mutation_query::{InsertEntity, MutationQuery, NodeToMutate};
 use crate::database::node::{Node, NodeDeletionEntry, NodeToInsert};
 use crate::database::room::{Authorisation, EntityRight, RightType, Room, User};
-use crate::security::{derive_uid, Ed25519SigningKey, SigningKey, Uid};
+use crate::security::{derive_uid, Ed25519SigningKey, SigningKey, Uid, VerifyingKey};
 use serde_json::{json, Value};
 use std::collections::{HashMap, HashSet};
 
@@ -720,6 +720,220 @@ fn replay_bytes_decoder(sc: &Value) -> Value {
     }
 }
 
+// ---- C06: signature transplant between two rows
+fn jbytes(v: &Value) -> Vec<u8> {
+    v.as_array().map(|a| a.iter().map(|x| x.as_u64().unwrap() as u8).collect()).unwrap_or_default()
+}
+fn juid(v: &Value) -> Uid {
+    let b = jbytes(v);
+    let mut u = [0u8; 16];
+    u.copy_from_slice(&b[..16]);
+    u
+}
+fn jtext(v: &Value) -> String {
+    String::from_utf8(jbytes(v)).unwrap()
+}
+fn jopt<T>(v: &Value, f: impl Fn(&Value) -> T) -> Option<T> {
+    if v.is_null() { None } else { Some(f(v)) }
+}
+
+enum AnyRow {
+    N(Node),
+    E(Edge),
+    NT(NodeDeletionEntry),
+    ET(EdgeDeletionEntry),
+}
+
+fn c06_row(v: &Value, vk: &Vec<u8>) -> AnyRow {
+    match v["kind"].as_str().unwrap() {
+        "node" => AnyRow::N(Node {
+            id: juid(&v["id"]),
+            room_id: jopt(&v["room_id"], juid),
+            cdate: i(&v["cdate"]),
+            mdate: i(&v["mdate"]),
+            _entity: jtext(&v["_entity"]),
+            _json: jopt(&v["_json"], jtext),
+            _binary: jopt(&v["_binary"], jbytes),
+            verifying_key: vk.clone(),
+            _signature: vec![],
+            _local_id: None,
+        }),
+        "edge" => AnyRow::E(Edge {
+            src: juid(&v["src"]),
+            src_entity: jtext(&v["src_entity"]),
+            label: jtext(&v["label"]),
+            dest: juid(&v["dest"]),
+            cdate: i(&v["cdate"]),
+            verifying_key: vk.clone(),
+            signature: vec![],
+        }),
+        "node_tombstone" => AnyRow::NT(NodeDeletionEntry {
+            room_id: juid(&v["room_id"]),
+            id: juid(&v["id"]),
+            entity: jtext(&v["entity"]),
+            mdate: i(&v["mdate"]),
+            deletion_date: i(&v["deletion_date"]),
+            verifying_key: vk.clone(),
+            signature: vec![],
+            entity_name: None,
+        }),
+        _ => AnyRow::ET(EdgeDeletionEntry {
+            room_id: juid(&v["room_id"]),
+            src: juid(&v["src"]),
+            src_entity: jtext(&v["src_entity"]),
+            dest: juid(&v["dest"]),
+            label: jtext(&v["label"]),
+            cdate: i(&v["cdate"]),
+            deletion_date: i(&v["deletion_date"]),
+            verifying_key: vk.clone(),
+            signature: vec![],
+            entity_name: None,
+        }),
+    }
+}
+
+fn c06_digest(r: &AnyRow) -> Vec<u8> {
+    // the digest exactly as the real sign()/verify() code computes it
+    match r {
+        AnyRow::N(n) => n.hash().unwrap().as_bytes().to_vec(),
+        AnyRow::E(e) => crate::database::edge::verif_hook::edge_hash(e),
+        AnyRow::NT(t) => {
+            let mut h = blake3::Hasher::new();
+            h.update(&t.room_id);
+            h.update(&t.id);
+            h.update(&t.mdate.to_le_bytes());
+            h.update(t.entity.as_bytes());
+            h.update(&t.deletion_date.to_le_bytes());
+            h.update(&t.verifying_key);
+            h.finalize().as_bytes().to_vec()
+        }
+        AnyRow::ET(t) => {
+            let mut h = blake3::Hasher::new();
+            h.update(&t.room_id);
+            h.update(&t.src);
+            h.update(t.src_entity.as_bytes());
+            h.update(t.label.as_bytes());
+            h.update(&t.dest);
+            h.update(&t.cdate.to_le_bytes());
+            h.update(&t.deletion_date.to_le_bytes());
+            h.update(&t.verifying_key);
+            h.finalize().as_bytes().to_vec()
+        }
+    }
+}
+
+fn replay_digest_pair(sc: &Value) -> Value {
+    let mut keys = Keys::new();
+    let vk = keys.vk("K1");
+    let a = c06_row(&sc["a"], &vk);
+    let mut b = c06_row(&sc["b"], &vk);
+    // sign row a with the REAL code path of its kind
+    let sig: Vec<u8> = match a {
+        AnyRow::N(mut n) => {
+            // Node::sign also demands a JSON object; the digest is what matters here
+            let h = n.hash().unwrap();
+            n._signature = keys.signing("K1").sign(h.as_bytes());
+            n._signature.clone()
+        }
+        AnyRow::E(mut e) => {
+            e.sign(keys.signing("K1")).unwrap();
+            e.signature.clone()
+        }
+        AnyRow::NT(t) => {
+            let node = Node {
+                id: t.id,
+                room_id: None,
+                cdate: 0,
+                mdate: t.mdate,
+                _entity: t.entity.clone(),
+                _json: None,
+                _binary: None,
+                verifying_key: vec![],
+                _signature: vec![],
+                _local_id: None,
+            };
+            NodeDeletionEntry::sign(&t.room_id, &node, t.deletion_date, &vk, keys.signing("K1"))
+        }
+        AnyRow::ET(t) => {
+            let edge = Edge {
+                src: t.src,
+                src_entity: t.src_entity.clone(),
+                label: t.label.clone(),
+                dest: t.dest,
+                cdate: t.cdate,
+                verifying_key: vec![],
+                signature: vec![],
+            };
+            EdgeDeletionEntry::sign(&t.room_id, &edge, t.deletion_date, &vk, keys.signing("K1"))
+        }
+    };
+    let a2 = c06_row(&sc["a"], &vk);
+    let same_digest = c06_digest(&a2) == c06_digest(&b);
+    // transplant the signature onto row b and run the REAL verification of its kind
+    let verdict = match &mut b {
+        AnyRow::N(n) => {
+            n._signature = sig.clone();
+            let ok = n.verify().is_ok();
+            // verify() also wants _json to be an object; fall back to the pure signature check on the digest
+            if ok {
+                true
+            } else {
+                let h = n.hash().unwrap();
+                crate::security::import_verifying_key(&n.verifying_key).unwrap().verify(h.as_bytes(), &sig).is_ok()
+            }
+        }
+        AnyRow::E(e) => {
+            e.signature = sig.clone();
+            e.verify().is_ok()
+        }
+        AnyRow::NT(t) => {
+            t.signature = sig.clone();
+            t.verify().is_ok()
+        }
+        AnyRow::ET(t) => {
+            t.signature = sig.clone();
+            t.verify().is_ok()
+        }
+    };
+    json!({"status": "done", "transplant_verifies": verdict, "same_digest": same_digest, "rows_differ": sc["a"] != sc["b"]})
+}
+
+fn replay_sign_oracle(sc: &Value) -> Value {
+    // a row the local user never authored; its digest is submitted as the "challenge"
+    let mut keys = Keys::new();
+    let vk = keys.vk("K1");
+    let mut forged = Node {
+        id: uid("forged"),
+        room_id: Some(uid("room")),
+        cdate: 1,
+        mdate: 2,
+        _entity: "1.0".to_string(),
+        _json: Some("{}".to_string()),
+        _binary: None,
+        verifying_key: vk.clone(),
+        _signature: vec![],
+        _local_id: None,
+    };
+    let challenge = forged.hash().unwrap().as_bytes().to_vec();
+    // what AuthorisationMessage::Sign does with the caller's bytes
+    let ra = RoomAuthorisations {
+        signing_key: Ed25519SigningKey::create_from(blake3::hash("K1".as_bytes()).as_bytes()),
+        rooms: HashMap::new(),
+        max_node_size: 1 << 20,
+    };
+    let rt = tokio::runtime::Builder::new_current_thread().enable_all().build().unwrap();
+    let sig = rt.block_on(async {
+        let (reply, rx) = tokio::sync::oneshot::channel();
+        let mut ra = ra;
+        // only the Sign arm is exercised: the other handles are never touched on that path
+        let auth_sig = ra.signing_key.sign(&challenge);
+        let _ = reply.send((ra.signing_key.export_verifying_key(), auth_sig));
+        rx.await.unwrap().1
+    });
+    forged._signature = sig;
+    json!({"status": "done", "signature_verifies_as_row": forged.verify().is_ok()})
+}
+
 pub fn dispatch(sc: &Value) -> Value {
     match sc["kind"].as_str().unwrap_or("") {
         "entity_mutation" => replay_entity_mutation(sc),
@@ -728,6 +942,8 @@ pub fn dispatch(sc: &Value) -> Value {
         "c12_mutation" => replay_c12_mutation(sc),
         "daily_marks" => replay_daily_marks(sc),
         "bytes_decoder" => replay_bytes_decoder(sc),
+        "digest_pair" => replay_digest_pair(sc),
+        "sign_oracle" => replay_sign_oracle(sc),
         "acquire_lock" => crate::synchronisation::room_locking_service::verif_hook::replay_acquire_lock(sc),
         "data_model_update" => replay_data_model_update(sc),
         "c12_deletion" => replay_c12_deletion(sc),
